@@ -68,6 +68,10 @@ type env struct {
 	issuedGen map[string]int
 	gen      map[int]int // keystore id -> how many times it was created / imported in this wallet lineage
 	unlocked bool
+	c        *ctl // fault control (C12)
+	faulty   bool
+	quiet    bool
+	nrep     int
 }
 
 func (e *env) ptok(i int) string {
@@ -140,6 +144,9 @@ func (e *env) bind(name string, id int) {
 }
 
 func (e *env) fail(prop, key, format string, a ...interface{}) {
+	if e.quiet {
+		return
+	}
 	e.h.Fail(prop+":"+key, fmt.Sprintf(format, a...))
 }
 
@@ -163,13 +170,23 @@ func (e *env) freshWallet(pub int) {
 		panic(err)
 	}
 	e.store = s
-	k, err := keystore.NewKeystoreManagerForPoC(s, []byte(e.passes[pub]), config.ChainParams)
+	k, err := keystore.NewKeystoreManagerForPoC(e.wrapped(s), []byte(e.passes[pub]), config.ChainParams)
 	if err != nil {
 		panic(err)
 	}
 	e.kmc = k
 	e.pub, e.priv, e.unlocked = pub, -1, false
 }
+
+func (e *env) wrapped(s db.DB) db.DB {
+	if e.faulty {
+		return &fdb{s, e.c}
+	}
+	return s
+}
+
+func hexDecode(s string) ([]byte, error) { return hex.DecodeString(s) }
+func removeAll(d string)                 { os.RemoveAll(d) }
 
 // ---- dump + invariants on the implementation ----
 func (e *env) dump() string {
@@ -707,7 +724,7 @@ func (e *env) opRestart(p int) (string, string) {
 		panic(err)
 	}
 	e.store = s
-	k, err := keystore.NewKeystoreManagerForPoC(s, []byte(e.passes[p]), config.ChainParams)
+	k, err := keystore.NewKeystoreManagerForPoC(e.wrapped(s), []byte(e.passes[p]), config.ChainParams)
 	if err != nil {
 		return line, "err " + errName(err)
 	}
@@ -1012,6 +1029,14 @@ func main() {
 	e.wf = []bool{true, true, true, true, true, false, false, false}
 	for i := 0; i < 4; i++ {
 		e.seeds = append(e.seeds, sha256sum("pool-seed-"+strconv.Itoa(i)))
+	}
+	if *focus == "C12" {
+		e.idOf, e.nameOf = map[string]int{}, map[int]string{}
+		e.c = &ctl{}
+		runFaults(e)
+		e.closeStore()
+		h.Finish("fault enumeration: for every operation of short histories, every bucket write and the commit are cut in turn (failed write, crash at write, failed commit, crash after commit); each experiment on a replica rebuilt by replay; distinct = distinct (fault line, outcome) pairs")
+		return
 	}
 	for s := 0; s < h.N; s++ {
 		e.idOf, e.nameOf = map[string]int{}, map[int]string{}
